@@ -16,7 +16,7 @@
 From Coq Require Import List NArith Bool Arith Permutation Lia.
 Import ListNotations.
 Require Import MV.Common.Interleave MV.C05.Model MV.C05.Spec MV.C05.Exec.
-Require Import MV.C05.ProofsSeq MV.C05.ProofsInv MV.C05.ProofsCor MV.C05.ProofsUniq MV.C05.ProofsCons MV.C05.ProofsProg MV.C05.ProofsSnap MV.C05.ProofsEmpty MV.C05.ProofsOrder MV.C05.ProofsSpec MV.C05.ProofsTrace1 MV.C05.ProofsTrace2 MV.C05.ProofsTrace3 MV.C05.ProofsTrace4 MV.C05.ProofsTrace5 MV.C05.ProofsTrace6 MV.C05.ProofsTrace7 MV.C05.ProofsTrace8 MV.C05.ProofsTrace9.
+Require Import MV.C05.ProofsSeq MV.C05.ProofsInv MV.C05.ProofsCor MV.C05.ProofsUniq MV.C05.ProofsCons MV.C05.ProofsProg MV.C05.ProofsSnap MV.C05.ProofsEmpty MV.C05.ProofsOrder MV.C05.ProofsSpec MV.C05.ProofsTrace1 MV.C05.ProofsTrace2 MV.C05.ProofsTrace3 MV.C05.ProofsTrace4 MV.C05.ProofsTrace5 MV.C05.ProofsTrace6 MV.C05.ProofsTrace7 MV.C05.ProofsTrace8 MV.C05.ProofsTrace9 MV.C05.ProofsTrace10.
 Local Open Scope nat_scope.
 
 (* (1) complete calls, run one after the other by any threads, are exactly the bag operations:
@@ -471,10 +471,7 @@ Proof. exact spec_pub_positions_on_model. Qed.
    obligation set "genuine push, 503 position below the call's start"; without clears every block
    stays reachable from tail, so the `clears` disjunct of Spec.accounts is not needed).  No `done`
    hypothesis: only completed calls appear in the results.
-   STILL NOT PROVED: C05_spec_completeness_on_model in general (data_with calls in cases WITH clears:
-   needs the 541 positions, the alignment of clear calls with their `rcas` and a detach ledger;
-   is_empty calls: needs the 520 positions, `empty_end` restated with explicit state, and
-   C05_is_empty_sound along the trace) and therefore the conjunction C05_spec_ok_on_model. *)
+   What is still not proved of S3 is listed under the next theorem. *)
 Theorem C05_spec_snapshot_completeness_on_model_no_clear : forall c : case,
   (forall p, In p (progs_of c) -> ~ In CClear p) ->
   let '(tr, rss, _, _, _) := run_case c in
@@ -482,6 +479,33 @@ Theorem C05_spec_snapshot_completeness_on_model_no_clear : forall c : case,
   let rc := rcalls tr 0 rss in
   forallb (fun r => if (rkind r =? 0)%N then accounts tbl (filter is_clear rc) (rstart r) (handed r) else true) rc = true.
 Proof. exact spec_snapshot_completeness_no_clear. Qed.
+
+(* Clause S3 of the checker for is_empty calls that return TRUE, on the model, for every case whose
+   programs contain no clear_with: for every such call, no genuine push whose publication (its 503
+   position) lies before the call's first step (its 520 position) exists at all -- `accounts` with
+   nothing handed out.  Proof: the 520 positions of a thread are put in the trace ledger next to its
+   REmpty results; the thread-bound-free invariant of C05_is_empty_sound (chain walk with look-back)
+   is run along the trace with the obligation set "genuine push, 503 position below the call's
+   start"; a call that finishes with `true` has discharged every obligation, so the set was empty.
+   Without clears every block stays reachable from tail, so the `clears` disjunct of Spec.accounts
+   is not needed.
+   STILL NOT PROVED of S3 (C05_spec_completeness_on_model), and therefore of the conjunction
+   C05_spec_ok_on_model:
+   (i)   is_empty = FALSE (rkind 3: some publication lies before the call's last read): needs
+         Spec.empty_end restated with explicit state (the trace index of the thread's last
+         521/507/508 step) and a ledger "a set bit in a reachable-or-detached block has a 503 position
+         in the trace";
+   (ii)  data_with and is_empty = true in cases WITH clears: needs the 541 positions, the alignment of
+         clear calls with their `rcas`, and a detach ledger (a block unreachable from tail was
+         detached by a clear whose 541 position lies before the reader's start, or the reader
+         still holds it). *)
+Theorem C05_spec_is_empty_true_completeness_on_model_no_clear : forall c : case,
+  (forall p, In p (progs_of c) -> ~ In CClear p) ->
+  let '(tr, rss, _, _, _) := run_case c in
+  let tbl := pinfos tr 0 (progs_of c) in
+  let rc := rcalls tr 0 rss in
+  forallb (fun r => if (rkind r =? 2)%N then accounts tbl (filter is_clear rc) (rstart r) (handed r) else true) rc = true.
+Proof. exact spec_is_empty_true_completeness_no_clear. Qed.
 
 (* Block::len must be trailing_ones, not count_ones: in a reachable configuration where a snapshot
    stands at 506 after a passed quiescence test, a popcount length hands out an unwritten slot,
